@@ -25,12 +25,19 @@ func zzKey(n int) []byte {
 // (< 32 bytes encoded) or referenced by hash.
 func zzVal() []byte {
 	n := 1
-	if zzBound("VALS") >= 2 {
+	if zzBound("VALS") >= 5 {
+		// also the lengths around which a leaf's own encoding crosses 32 bytes
+		lens := [...]int{1, 27, 28, 29, 30, 33}
+		n = lens[zzChoice(len(lens))]
+	} else if zzBound("VALS") == 4 {
+		lens := [...]int{1, 29, 33} // 29: a leaf below a branch encodes to exactly 32 bytes
+		n = lens[zzChoice(len(lens))]
+	} else if zzBound("VALS") >= 2 {
 		lens := [...]int{1, 33}
 		n = lens[zzChoice(len(lens))]
 	}
 	v := zzNondetBytesN(n)
-	if zzBound("VALS") >= 3 {
+	if zzBound("VALS") == 3 {
 		zzAssume(v[0] != 0) // any non-empty value, including single bytes that are their own encoding
 	} else {
 		zzAssume(v[0] >= 0x80) // one RLP size class per length
